@@ -95,6 +95,9 @@ struct Config {
     /// per author: (common prefix length, extra on A, extra on B)
     logs: Vec<(usize, usize, usize)>,
     b_first: bool,
+    /// the sessions' own `buffer_capacity` (de-duplication buffer size, `new_with_capacity`); the
+    /// liveness verdict must not depend on it
+    ncap: usize,
 }
 
 impl Config {
@@ -105,7 +108,7 @@ impl Config {
     }
     fn id(&self) -> String {
         let ls: Vec<String> = self.logs.iter().map(|(p, a, b)| format!("{p}.{a}.{b}")).collect();
-        format!("#{}:{}:{}", self.cap, ls.join("_"), if self.b_first { 1 } else { 0 })
+        format!("#{}:{}:{}:{}", self.cap, ls.join("_"), if self.b_first { 1 } else { 0 }, self.ncap)
     }
     fn parse(id: &str) -> Config {
         let parts: Vec<&str> = id.trim_start_matches('#').split(':').collect();
@@ -120,7 +123,8 @@ impl Config {
                 })
                 .collect()
         };
-        Config { cap: parts[0].parse().unwrap(), logs, b_first: parts[2] == "1" }
+        let ncap = parts.get(3).and_then(|x| x.parse().ok()).unwrap_or(1024);
+        Config { cap: parts[0].parse().unwrap(), logs, b_first: parts[2] == "1", ncap }
     }
 }
 
@@ -224,8 +228,8 @@ fn run_config(uni: &Arc<Universe>, cfg: &Config) -> Outcome {
     let mut rx_b = EvRx { inner: b_rx, sched: sched.clone(), name: 'B', recvd: rec_b.clone() };
     let (ev_a, _keep_a) = broadcast::channel::<LogSyncEvent<E>>(4096);
     let (ev_b, _keep_b) = broadcast::channel::<LogSyncEvent<E>>(4096);
-    let sa: LogSync<L, E, MemStore, LogSyncEvent<E>> = LogSync::new(stores[0].clone(), logs.clone(), ev_a);
-    let sb: LogSync<L, E, MemStore, LogSyncEvent<E>> = LogSync::new(stores[1].clone(), logs.clone(), ev_b);
+    let sa: LogSync<L, E, MemStore, LogSyncEvent<E>> = LogSync::new_with_capacity(stores[0].clone(), logs.clone(), ev_a, cfg.ncap);
+    let sb: LogSync<L, E, MemStore, LogSyncEvent<E>> = LogSync::new_with_capacity(stores[1].clone(), logs.clone(), ev_b, cfg.ncap);
     let done = [Rc::new(RefCell::new(None)), Rc::new(RefCell::new(None))];
     let (da, db) = (done[0].clone(), done[1].clone());
     let b_first = cfg.b_first;
@@ -259,7 +263,7 @@ fn run_config(uni: &Arc<Universe>, cfg: &Config) -> Outcome {
             format!("at#{}/{}", enq.borrow(), r.borrow())
         }
     };
-    let request = format!("{} c={} A={} B={} | {}", cfg.id(), cfg.cap, btok(&ba), btok(&bb), sched.borrow().join(" "));
+    let request = format!("{} c={} n={} A={} B={} | {}", cfg.id(), cfg.cap, cfg.ncap, btok(&ba), btok(&bb), sched.borrow().join(" "));
     let answer = format!(
         "final={} A={} B={} static={}",
         if d[0] && d[1] { "done" } else { "stuck" },
@@ -290,6 +294,14 @@ fn emit(out: &mut Out, uni: &Arc<Universe>, cfg: &Config) {
         f.1 += recv;
     }
     out.count(&format!("cap={}", cfg.cap));
+    out.count(&format!("session-buffer={}", cfg.ncap));
+    {
+        let (va, vb): (usize, usize) = (ba.iter().sum(), bb.iter().sum());
+        let rel = |v: usize| if v > cfg.ncap { "above" } else if v == cfg.ncap { "at" } else { "below" };
+        if cfg.ncap < 1024 {
+            out.count(&format!("volume-vs-session-buffer:A-{}/B-{}/transport-{}", rel(va), rel(vb), if cfg.cap >= 64 { "large" } else { "small" }));
+        }
+    }
     out.count(&format!("static={}", static_verdict(cfg.cap, &ba, &bb)));
     out.count(&format!("batches={}+{}", ba.len(), bb.len()));
     out.count(if o.done[0] && o.done[1] { "outcome=completed" } else { "outcome=stuck" });
@@ -352,7 +364,38 @@ fn gen_config(rng: &mut Rng, caps: &[usize]) -> Config {
             logs.push((base, 0, n.min(CHAIN - base)));
         }
     }
-    Config { cap, logs, b_first: rng.chance(1, 2) }
+    Config { cap, logs, b_first: rng.chance(1, 2), ncap: 1024 }
+}
+
+/// Volumes chosen relative to the sessions' own buffer capacity N (below / at / above on either
+/// side, all combinations), over small and comfortably large transports.
+fn gen_buffer_config(rng: &mut Rng) -> Config {
+    let ncap = *rng.pick(&[1usize, 2, 3, 8, 16]);
+    let cap = *rng.pick(&[1usize, 2, 3, 4, 64, 512, 512]);
+    let vol = |rng: &mut Rng| -> usize {
+        match rng.below(3) {
+            0 => rng.range(0, ncap as u64 - 1) as usize,
+            1 => ncap,
+            _ => ncap + rng.range(1, 6) as usize,
+        }
+    };
+    let (va, vb) = (vol(rng), vol(rng));
+    let mut logs = vec![];
+    // split each side's volume over 1-3 authors
+    for (v, a_side) in [(va, true), (vb, false)] {
+        let mut left = v;
+        let k = rng.range(1, 3) as usize;
+        for i in 0..k {
+            let n = if i + 1 == k { left } else { rng.range(0, left as u64) as usize };
+            left -= n;
+            if n > 0 {
+                let base = rng.range(0, 3) as usize;
+                logs.push(if a_side { (base, n, 0) } else { (base, 0, n) });
+            }
+        }
+    }
+    rng.shuffle(&mut logs);
+    Config { cap, logs, b_first: rng.chance(1, 2), ncap }
 }
 
 fn main() {
@@ -379,8 +422,8 @@ fn main() {
     }
     let caps = [0usize, 1, 2, 3, 4, 8, 64, 512];
     // witnesses of the known finding, run first in every tier
-    emit(&mut out, &uni, &Config { cap: 0, logs: vec![], b_first: false });
-    emit(&mut out, &uni, &Config { cap: 1, logs: vec![(0, 40, 0), (0, 0, 40)], b_first: false });
+    emit(&mut out, &uni, &Config { cap: 0, logs: vec![], b_first: false, ncap: 1024 });
+    emit(&mut out, &uni, &Config { cap: 1, logs: vec![(0, 40, 0), (0, 0, 40)], b_first: false, ncap: 1024 });
     // the measured table of DESIGN.md C21
     for (c, a, b) in [(1, 3, 0), (1, 0, 3), (2, 9, 0), (2, 2, 1), (3, 2, 2), (4, 3, 3), (1, 1, 1), (1, 2, 2), (4, 6, 6)] {
         let mut logs = vec![];
@@ -390,16 +433,34 @@ fn main() {
         if b > 0 {
             logs.push((0, 0, b));
         }
-        emit(&mut out, &uni, &Config { cap: c, logs, b_first: false });
+        emit(&mut out, &uni, &Config { cap: c, logs, b_first: false, ncap: 1024 });
     }
     let n = match args.tier {
         Tier::Quick => 2000,
         Tier::Thorough => 60000,
         Tier::Search => 20000,
     };
+    // session buffer capacity N x volumes {N-1, N, N+1, N+4} on either side x small / large transport
+    for ncap in [1usize, 2, 3, 8, 16] {
+        for va in [ncap.saturating_sub(1), ncap, ncap + 1, ncap + 4] {
+            for vb in [ncap.saturating_sub(1), ncap, ncap + 1, ncap + 4] {
+                for cap in [2usize, 512] {
+                    let mut logs = vec![];
+                    if va > 0 {
+                        logs.push((0, va, 0));
+                    }
+                    if vb > 0 {
+                        logs.push((0, 0, vb));
+                    }
+                    emit(&mut out, &uni, &Config { cap, logs, b_first: false, ncap });
+                }
+            }
+        }
+    }
+    emit(&mut out, &uni, &Config { cap: 512, logs: vec![(0, 12, 0), (0, 0, 20)], b_first: false, ncap: 8 });
     let mut rng = Rng::new(args.seed);
-    for _ in 0..n {
-        let cfg = gen_config(&mut rng, &caps);
+    for i in 0..n {
+        let cfg = if i % 2 == 0 { gen_config(&mut rng, &caps) } else { gen_buffer_config(&mut rng) };
         emit(&mut out, &uni, &cfg);
     }
     // select! fairness: where both arms of the Sync-state select! were ready, the receive arm must
@@ -418,7 +479,7 @@ fn main() {
         );
     }
     out.finish(
-        "channel capacity in {0,1,2,3,4,8,64,512} x 0-40 operations per side in 0-3 author batches each (a third of the cases sized around the capacity boundary), either session polled first. non-trivial = capacity 0, or both sides have more Sync-phase messages (operations + Done) than the capacity",
+        "channel capacity in {0,1,2,3,4,8,64,512} x 0-40 operations per side in 0-3 author batches each (a third of the cases sized around the capacity boundary), either session polled first; half of the cases (and a fixed grid) vary the sessions' own buffer_capacity N in {1,2,3,8,16} with per-side volumes below / at / above N in all combinations over small and large transports (the verdict must not depend on N). non-trivial = capacity 0, or both sides have more Sync-phase messages (operations + Done) than the capacity",
         false,
     );
 }
